@@ -38,8 +38,9 @@ def gen(rng, tier):
             m = G.gen_matrix(rng, nmax=5 if tier == "quick" else 7)
             r = c = len(m["rows"])
             mode = "square"
+        dt = G.typed(m, rng) if mode == "square" else "float64"
         yield dict(mode=mode, r=r, c=c, M=[[fs(x) for x in row] for row in m["rows"]], const=fs(G.q(rng)),
-                   kind=rng.choice(G.KINDS), pattern=rng.choice(PATTERNS), cls=m["cls"])
+                   kind=rng.choice(G.KINDS), pattern=rng.choice(PATTERNS), cls=m["cls"], dtype=dt)
 
 
 def shrink(case):
@@ -69,13 +70,13 @@ def run_case(case, drv):
     r, c = case["r"], case["c"]
     const = F(case["const"])
     kind, pat = case["kind"], case["pattern"]
-    res.features += [f"kind:{kind}", f"class:{case.get('cls')}", f"n:{r}", f"mode:{case['mode']}", f"pattern:{pat.lower()!r}"]
+    res.features += [f"dtype:{case.get('dtype', 'float64')}", f"kind:{kind}", f"class:{case.get('cls')}", f"n:{r}", f"mode:{case['mode']}", f"pattern:{pat.lower()!r}"]
     res.nontrivial = case["mode"] == "square" and r >= 2 and any(M[i][j] != M[j][i] for i in range(r) for j in range(r))
     pathex = pat.encode().hex() or "-"
     sym2 = [[M[i][j] + M[j][i] for j in range(r)] for i in range(r)] if case["mode"] == "square" else None
 
     for fn, cmd, sig in ((qt.to_upper_triangular, "upper", "upper"), (qt.to_symmetric, "sym", "sym")):
-        obj = G.to_container(M, kind)
+        obj = G.to_container(M, kind, dtype=case.get("dtype"))
         before = G.snapshot(obj)
         try:
             out = fn(obj)
@@ -104,7 +105,7 @@ def run_case(case, drv):
             res.fail(f"{sig}:mutates-input", f"{fn.__name__} modified its {kind} input")
 
     # ---------------- container
-    obj = G.to_container(M, kind)
+    obj = G.to_container(M, kind, dtype=case.get("dtype"))
     before = G.snapshot(obj)
     try:
         C = qt.QUBOContainer(obj, float(const), pat)
